@@ -117,9 +117,9 @@ theorem duo_request_hq0 {cfg : Cfg} {G : Nat} {n : Net} {x y : Nat} {stx sty : N
     (statusRequestBytes sty.s.p.address stx.s.p.address) (by rw [statusRequestBytes_length]; omega) (by omega)
     (by rw [hsy]; exact Int.le_trans d.seens.2 htl) (by rw [hsy]; exact hgy) hP100 (by rw [hbus, hspec]) (by rw [hbus, e4])
   have htxsX : n.bus.txs = dn ++ rs := hX.2.2.2.2.2.2.2.1
-  refine ⟨_, _, lY, coll, ⟨hS, hs'.1, hs'.2, ?_, ?_, ?_,
+  refine ⟨_, _, lY, coll, ⟨hS, .inl hs'.1, hs'.2, ?_, ?_, ?_,
     by rw [hset, List.getElem?_set_ne hxy]; exact d.gy, d.yx, by rw [hbus, e4]; simp only [List.length_set]; exact d.ys,
-    by rw [hset, List.length_set]; exact d.yl, by rw [haddr]; exact hX', ?_, hpy, hpb, ?_, ?_⟩, ?_⟩
+    by rw [hset, List.length_set]; exact d.yl, by rw [haddr]; exact hX', ?_, hpy, hpb, ?_, ?_, (by show c.s.ring.ts = c.s.p.address; rw [hp']; exact hv'.ts)⟩, ?_⟩
   · rw [haddr, hbus]
     refine ⟨e3.trans d.lone.rate, e5.trans d.lone.corrupt, ?_, ?_, ?_, ?_⟩
     · rw [e1]
